@@ -94,6 +94,44 @@ Section Schnorr.
         let sg := mk_ssig (mk_gelt true k) s in
         if bip_verify sg (mk_gelt true (d0 mod n)) m then Some sg else None.
 
+  (* ---- batch verification ------------------------------------------------------------
+     bip340.Verifier.BatchVerify: (Σ a_i s_i)·G = Σ a_i·lift_x(R_i) + Σ (a_i e_i)·lift_x(P_i) with
+     a_1 = 1 and a_2.. drawn from the verifier's prng ([coefs] is the whole list 1 :: a_2 :: ...;
+     the caller supplies as many coefficients as entries).  The challenge is computed from the
+     x-only encodings of R_i and of the key as given.  No check on s_i or R_i is made.
+     VerifierTrait.BatchVerify (generic, Mina) verifies the entries one after the other. *)
+  Record bentry := mk_bentry { be_sig : ssig; be_pk : gelt; be_m : M }.
+
+  Fixpoint batch_left (coefs : list Z) (es : list bentry) : Z :=
+    match coefs, es with
+    | a :: cs, e :: r => sadd (smul a (s_s (be_sig e))) (batch_left cs r)
+    | _, _ => 0
+    end.
+
+  Definition batch_term (a : Z) (e : bentry) : Z :=
+    let R := even_y (g_k (s_R (be_sig e))) in
+    let P := even_y (g_k (be_pk e)) in
+    let c := chal (xo (g_k (s_R (be_sig e)))) (xo (g_k (be_pk e))) (be_m e) in
+    sadd (smul a R) (smul (smul a c) P).
+
+  Fixpoint batch_right (coefs : list Z) (es : list bentry) : Z :=
+    match coefs, es with
+    | a :: cs, e :: r => sadd (batch_term a e) (batch_right cs r)
+    | _, _ => 0
+    end.
+
+  Definition bip_batch_verify (coefs : list Z) (es : list bentry) : bool :=
+    match es with
+    | [] => false                                                (* empty batch refused *)
+    | _ =>
+      if negb (Nat.eqb (length coefs) (length es)) then false
+      else if existsb (fun e => g_k (be_pk e) mod n =? 0) es then false   (* identity key refused *)
+      else batch_left coefs es =? batch_right coefs es
+    end.
+
+  Definition gen_batch_verify (neg_resp : bool) (encR encP : Z -> Z) (es : list bentry) : bool :=
+    forallb (fun e => gen_verify neg_resp encR encP (be_sig e) (be_pk e) (be_m e)) es.
+
   (* ---- Mina ------------------------------------------------------------------------- *)
   Definition mina_verify := gen_verify false xo full.
   Definition mina_sign := gen_sign false xo full yodd.
